@@ -34,6 +34,14 @@ CHECKS = {
              note=BASE_NOTE + "Sequential model (one thread); every I/O succeeds; rkyv header encoding and pread/io_uring/mmap modelled as cells. "
              "Progress clause: theorem pending, oracle + correspondence meanwhile.",
              tech="Lean 4 proof (parser invariant by induction, any plan) + translator + differential correspondence + oracle", ref="§6 C03"),
+ "C24": dict(text="C24_sync (any concatenation of frames, any announced lengths and bodies, any UTF-8 decoder: exactly one response per frame, "
+             "in order, each computed from that frame's own bytes), C24_bad_length/C24_bad_utf8/C24_unknown_command (malformed frames are "
+             "answered with the error and leave the backend unchanged), C24_roundtrip + C24_trim_preserves (PUT then GET returns the payload "
+             "unchanged; trailing whitespace of the command line is not payload). client.rs compiled by #[path] against a tokio stand-in and a "
+             "FIFO mock controller; executable model compared on 2500 scripted connections + raw streams + the whitespace class.",
+             note=BASE_NOTE + "tokio, the node controller and String::from_utf8 are stand-ins/parameters (harness/shims/tokio, mock FIFO, abstract dec). "
+             "Full strength after fix 7eacd09 (oversized frame body drained).",
+             tech="Lean 4 proof (induction over the frame list; split/trim lemmas) + differential correspondence + oracle", ref="§6 C24"),
 }
 NOT_APPLICABLE = {
  "C19": "statement about the vendored openraft core + QUIC transport + tokio runtime, none of which can be built or run offline here (tokio, quinn, rustls, futures absent from the registry); a free-standing Raft proof would be tied to nothing (DESIGN.md §6 C19)",
